@@ -212,6 +212,8 @@ REPLAY_BINS = {
     "C01": [("c11_build", []), ("c_run", [], ["C01"])],
     "C06": [("c11_build", [])],
     "C12": [("c11_build", [])],
+    "C14": [("c14_seq", [])],
+    "C17": [("c17_info", ["--features", "graph_info"])],
 }
 
 
